@@ -230,3 +230,22 @@ def mixed_materials(rng, names):
 
 def mixed_cost(specs):
     return 10.0 + 2.2 * sum(COST[m["name"]] for m in specs)
+
+
+def scale_moduli(spec, f):
+    """copy of a material spec with every stress-like constant multiplied by f (strain-like and time-like constants unchanged)"""
+    import copy
+    m = copy.deepcopy(spec)
+    for key in ("E", "K", "G", "Y0"):
+        if key in m:
+            m[key] = m[key] * f
+    if "Gneq" in m:
+        m["Gneq"] = [g * f for g in m["Gneq"]]
+    h = m.get("hardening")
+    if h:
+        for key in ("H", "Ysat"):
+            if key in h:
+                h[key] = h[key] * f
+    if m.get("rate"):
+        m["rate"]["S"] = m["rate"]["S"] * f
+    return m
